@@ -465,6 +465,9 @@ class HeapMixin:
             k = self.hashable(key)
             if k in o.items:
                 return o.items[k]
+            kk = self.same_int_key(o, k)
+            if kk is not None:
+                return o.items[kk]
             self.raise_builtin('KeyError', key, node=node)
         keys = list(o.items.keys())
         conds = [self.equals(key, k.e if isinstance(k, ZKey) else k) for k in keys]
@@ -473,6 +476,24 @@ class HeapMixin:
         if i == len(keys):
             self.raise_builtin('KeyError', key, node=node)
         return o.items[keys[i]]
+
+    def same_int_key(self, o, k):
+        """An IntEnum member and the int it equals are the same dictionary key in Python (equal and same hash)."""
+        def iv(x):
+            if isinstance(x, bool):
+                return None
+            if isinstance(x, int):
+                return x
+            if isinstance(x, EnumV) and x.concrete and x.cls.enum_kind == 'IntEnum' and isinstance(x.val, int):
+                return x.val
+            return None
+        a = iv(k)
+        if a is None:
+            return None
+        for kk in o.items:
+            if not isinstance(kk, ZKey) and iv(kk) == a:
+                return kk
+        return None
 
     def key_is_symbolic(self, key):
         if isinstance(key, tuple):
